@@ -116,6 +116,13 @@ class Report:
         self.machinery_errors += d.get('errors', [])
         self.programs += d.get('programs', 0)
         for k, v in d.get('functions', {}).items(): self.functions[k] = v
+        if d.get('xcheck'):
+            x = self.extra.setdefault('second_solver_sample', dict(exported=0, agree=0, unknown=0, disagree=0, solvers='cvc5 1.0, z3 4.8.12 (binary)'))
+            for k in ('exported', 'agree', 'unknown', 'disagree'): x[k] += d['xcheck'].get(k, 0)
+        if d.get('validation'):
+            x = self.extra.setdefault('encoder_validation', dict(instances=0, agree=0, skipped=0, what='model-predicted result vs the real build run natively on the same concrete inputs'))
+            for k in ('instances', 'agree', 'skipped'): x[k] += d['validation'].get(k, 0)
+        if d.get('syntactic'): self.extra['closed_syntactically'] = self.extra.get('closed_syntactically', 0) + d['syntactic']
     def finish(self, candidates, replay_fn=None):
         """candidates: list of dicts {role, detail, model}. replay_fn(c) -> (reproduced: bool, info).  Returns exit code."""
         kf = load_findings()
